@@ -17,6 +17,12 @@ For the categorical layer it is discharged by construction since fix 66006cc: th
 reject exactly the cyclic pair sets (`Tfl.C16.verifyCategorical_acyclic`), and
 `Tfl.C16.categoricalLayer_projection_total` (Props/C16.lean, which imports this module) combines
 that with `categorical_pairs_and_bounds_acyclic` for every accepted configuration.
+
+The Linear theorems of THIS file are STAGE theorems (about the column after the sign clip, after the
+monotonic-dominance projection, after the range-dominance projection, after the normalisation).
+The statement about the whole `Linear.project` of an accepted configuration — all constraints at
+once, unit norm, the degenerate case, the full fixpoint — is `Tfl.C06.accepted_project`
+(Props/C06Compose.lean).
 -/
 namespace Tfl.C06
 open Tfl Tfl.Poset Tfl.Linear
